@@ -64,8 +64,8 @@ def handle (op : String) (j : Json) : Except String Json := do
   | "chunked" =>
     let k ← getNat j "k"
     -- header first, then chunks of the record area (the same file object)
-    let chunks := match readFileChunks oc on members k with
-      | some (_, cs) => cs.map (·.1)
+    let chunks : List (List DRec) := match readFileChunks oc on members k with
+      | some (_, cs) => cs.map Prod.fst
       | none => []
     let m := Json.mkObj [("recs", Json.arr ((chunks.flatten).map mj).toArray), ("chunks", natList (chunks.map List.length))]
     let s := Json.mkObj [("recs", Json.arr ((recs.map (view names)).map sj).toArray)]
